@@ -1,3 +1,11 @@
 //! Safe-Rust verification hooks for this module (accessors/wrappers only; no logic).
 #![allow(missing_docs, unused_imports, dead_code)]
 use super::*;
+
+// ---- statime_h (C41/C44/C45): raw TLV type codes
+pub fn tlv_type_to_primitive(t: TlvType) -> u16 {
+    t.to_primitive()
+}
+pub fn tlv_type_from_primitive(v: u16) -> TlvType {
+    TlvType::from_primitive(v)
+}
